@@ -7,7 +7,26 @@ AO = "porepy/utils/array_operations.py"
 
 AU = "porepy/numerics/ad/ad_utils.py"
 
+ES = "porepy/numerics/ad/equation_system.py"
+
 MUTANTS = {
+    "C05": [
+        {"name": "cluster_interfaces_first", "edits": [
+            {"file": ES, "old": "        # 1. Per subdomain, order variables\n        for grid in self.mdg.subdomains():",
+             "new": "        # 1. Per subdomain, order variables\n        for grid in self.mdg.interfaces():"},
+            {"file": ES, "old": "        # 2. Per interface, order variables\n        for intf in self.mdg.interfaces():",
+             "new": "        # 2. Per interface, order variables\n        for intf in self.mdg.subdomains():"}]},
+        {"name": "no_recluster_after_removal", "file": ES,
+         "old": "            # Update the variable clustering. This also updates _variable_num_dofs.\n            self._cluster_dofs_gridwise()",
+         "new": "            # Update the variable clustering. This also updates _variable_num_dofs.\n            pass"},
+        {"name": "identify_dof_ge", "file": ES, "old": "np.argmax(global_variable_dofs > dof) - 1", "new": "np.argmax(global_variable_dofs >= dof) - 1"},
+        {"name": "get_values_in_creation_order", "file": ES,
+         "old": "        for id_ in self._variable_numbers:\n            if id_ in var_ids:",
+         "new": "        for id_ in self._variables:\n            if id_ in var_ids:"},
+        {"name": "duplicate_name_check_first_grid_only", "file": ES,
+         "old": "            if var.name == name and var.domain in grids:",
+         "new": "            if var.name == name and var.domain in grids[:1]:"},
+    ],
     "C08": [
         {"name": "get_returns_storage", "file": AU, "old": "        value = data[loc][name][index].copy()", "new": "        value = data[loc][name][index]"},
         {"name": "set_stores_argument", "file": AU, "old": "            data[loc][name][index] = values.copy()", "new": "            data[loc][name][index] = values"},
